@@ -20,6 +20,8 @@ CLAIMED = {
              ref='DESIGN.md §4 C01', note='Symbolic texts <= 3 characters (quick: parser on <= 2, lexer on 3; thorough: parser on <= 4); lexeme sequences: 1 over all spellings, 2 over one spelling per token type, 3 over 20 role representatives (thorough: 3 over all types, 4 over the 20).  Deep nesting is outside the property.'),
  'C12': dict(text='Bounded model checking of the real Lexer (Lexer::new, Iterator::next, match_loop, scan_*, make_range, staged suffixes) from MIR over symbolic source text: every character is a 32-bit symbolic code point over ASCII and nine multi-byte representatives, every character-class decision of the lexer is a solver-checked fork; on every feasible path z3 / the path facts decide that the tokens are ordered non-overlapping slices, gaps are ignorable, every line feed outside strings/comments is a Newline token, and start / end positions equal the true line and byte column.',
              ref='DESIGN.md §4 C12', note='Texts of <= 3 (thorough 4) symbolic characters, plus 2 symbolic characters inside fixed multi-line contexts and multi-line string/comment + suffix units.  Counterexamples are replayed through the native lexer in dev and release.'),
+ 'C13': dict(text='Bounded model checking of the real frontend::parser::parse + ParseError Display from MIR on composed texts (valid context) + (fault line) + (valid continuation): 91 context-independent syntax faults in 6 classes at every position of every context built from <= 1 (thorough 2) units (statements, closed blocks, function, multi-line comment / string literals, blank lines) and inside 5 open blocks; symbolic ignorable characters before the fault (and, thorough, at the end of the preceding line) make the lexer fork under the solver.  Each feasible path must end in Err whose rendered line equals the fault line.',
+             ref='DESIGN.md §9.6', note='The fault catalogue is fixed in mirsym/props/C13.py; faults whose rejection depends on context are outside.  Counterexamples are replayed through the native parser (dev + release).'),
  'C16': dict(text='Symbolic execution of the real default traversal (VisitExpr / VisitProgram defaults, ExprVisitorRunner, combine_all) with a VM-only visitor that overrides nothing: for every AST node kind, trees with one free level below it, every callback entry is compared with a reference pre-order, a failure is injected at every callback index, and the folded ListBuilder result is checked.',
              ref='DESIGN.md §4 C16', note='Tree shapes are solver-forked decisions (no symbolic payload matters to traversal); composition over node kinds is by induction.  Replay is on the VM (a native recording visitor is not built).'),
  'C17': dict(text='Bounded model checking of NumericConstantFolder / SimpleStringConstantFolder against ProduceVal on the same lazily generated expression trees (root + 1/2 free levels, symbolic operators, all doubles, all strings): z3 shows a folded value is bit-identical to the evaluated value, that pure arithmetic trees fold and that state-reading trees do not.',
@@ -43,7 +45,6 @@ NA = {
 }
 PENDING = ['C01','C02','C03','C04','C05','C06','C07','C08','C09','C10','C11','C12','C13','C15','C16','C17','C18','C19','C20']
 NA_REASONS = {
- 'C13': 'needs the real lexer and parser composed over multi-line program texts; the reachable symbolic text bound (<= 4 characters) cannot hold one faulty statement after a preceding line (DESIGN.md §4 C13)',
  'C20': 'process-level behaviour (argv, files, stdio, exit status of the built binary) cannot be made symbolic variables of a solver query over rrss code (DESIGN.md §4 C20)',
 }
 def main():
